@@ -15,7 +15,7 @@ META = {
     "technique": "TLC exhaustive + simulation (Pattern B: exact rationals replayed into the implementation)",
 }
 ASSUMPTIONS = [
-    "curve values are positive (positive peaks); times are non-decreasing (equal consecutive timestamps are legitimate "
+    "the first value of a curve, hence every running maximum, is positive; later values may be zero or negative (depth may exceed 1); times are non-decreasing (equal consecutive timestamps are legitimate "
     "input, a drawdown may have zero duration)",
     "reading the current drawdown (DrawdownGenerator::generate on the live object, any time, any number of times) must not "
     "change any later figure (ReadingIsPure); the tear sheets' own generate() folds into Max/Mean by design, so after a live "
@@ -137,7 +137,7 @@ def check(ctx):
         for k, v in info.get("arm_hits", {}).items():
             arms[k] = arms.get(k, 0) + v
     # (runs cut short by a violation exercise fewer arms: vacuity is only judged on a clean run)
-    if not ctx.violations and not all(arms.get(k) for k in ("point_completes_a_drawdown", "drawdown_in_progress", "max_tie", "live_read", "equal_consecutive_times")):
+    if not ctx.violations and not all(arms.get(k) for k in ("point_completes_a_drawdown", "drawdown_in_progress", "max_tie", "live_read", "equal_consecutive_times", "decline_through_zero")):
         raise vlib.ToolError("vacuous run: an arm of the drawdown decomposition was never exercised: %s" % arms)
     # impl -> spec: seeded random curves recorded from the implementation, validated by TLC
     out = ctx.path("trace_random.ndjson")
